@@ -982,6 +982,13 @@ func (in *Interp) mapFind(m *mapV, k value, label string) *mapEntry {
 	if m == nil {
 		return nil
 	}
+	// a syntactically identical key is THE entry: entries have pairwise distinct keys under the path condition
+	// (invariant of mapSet), so no other entry can match — no solver query, no fork
+	for _, e := range m.entries {
+		if in.eq(e.k, k).IsTrue() {
+			return e
+		}
+	}
 	// first pass: syntactic certainty
 	var maybe []*mapEntry
 	var conds []*smt.Term
